@@ -311,7 +311,7 @@ def resolution_guards(ctx, col: Collector, rule: str):
     guarded(col, rule, 'TableBlueprint.build', index_subject)
 
     def group_dup():
-        fi = idx.func('pydbml.parser.blueprints', 'TableGroupBlueprint.build')
+        fi = expanded(ctx, 'pydbml.parser.blueprints', 'TableGroupBlueprint.build')
         # locals that hold a resolved Table object: assigned only from <...>.locate_table(...)
         assigns: Dict[str, List[ast.AST]] = {}
         for n in walk_no_nested(fi.node):
